@@ -97,6 +97,8 @@ pub struct ServerSpec {
     pub chunk: usize,
     /// read client data at all? (false = accept then never read: back-pressure)
     pub reads: bool,
+    /// established connections stop reading while this is set (back-pressure that goes away again)
+    pub pause_reads: bool,
 }
 
 impl ServerSpec {
@@ -112,6 +114,7 @@ impl ServerSpec {
             shadow: BTreeMap::new(),
             chunk: 0,
             reads: true,
+            pause_reads: false,
         }
     }
 }
@@ -1249,6 +1252,9 @@ async fn serve_inner(net: Shared, id: usize, addr: String, s: &mut DuplexStream)
     }
 
     loop {
+        while net.lock().servers.get(&addr).map(|sp| sp.pause_reads).unwrap_or(false) {
+            tokio::time::sleep(std::time::Duration::from_millis(100)).await;
+        }
         let m = match read_typed(s).await {
             Some(m) => m,
             None => {
